@@ -71,17 +71,19 @@ theorem fifo_no_overtaking (ops : List Op) :
     program order** (so, by the rules above, same-instant emissions of one callback are delivered
     in program order): the kernel model's buffer flush (`buf_process`) extends the table of
     scheduled events — whose index is the scheduling order, the tie-breaker above — by the wake-up
-    (if any) and then exactly the pushes in the order they were made. Re-export of
+    (if any), then exactly the pushes in the order they were made, then the restart event of a
+    shutdown request (for an active module; a module that is shut down emits nothing). Re-export of
     `C14.flush_in_push_order`; the pushes themselves are in program order by
     `C14.emissions_in_program_order`. -/
 theorem handler_emissions_flushed_in_program_order (s : Proc.Sim) (mi : Nat) (kind : Proc.Kind)
-    (m : Proc.ModRt) (hm : s.mods[mi]? = some m)
+    (m : Proc.ModRt) (hm : s.mods[mi]? = some m) (hact : m.active = true)
     (hok : (s.moduleEvent mi kind true).fault = none) :
     (s.moduleEvent mi kind true).evs.toList =
       s.evs.toList
         ++ ((Proc.runEvent ⟨mi, s.fes.cur⟩ m kind).wake.map fun _ => Proc.KEvent.wakeup mi).toList
-        ++ (Proc.pushShape ⟨mi, s.fes.cur⟩ m kind).map (·.1) :=
-  C14.flush_in_push_order s mi kind m hm hok
+        ++ (Proc.pushShape ⟨mi, s.fes.cur⟩ m kind (Proc.dueTasks ⟨mi, s.fes.cur⟩ m)).map (·.1)
+        ++ Proc.restartOf mi (Proc.runEvent ⟨mi, s.fes.cur⟩ m kind).shutdown :=
+  C14.flush_in_push_order s mi kind m hm hact hok
 
 /-! Non-vacuity: ties straddling a "year" wrap (n·t = 4), a zero-delay follow-up scheduled between
 two fetches of the same instant. -/
